@@ -60,6 +60,8 @@ KF3(e, subj, mech, mech2) == UNCHANGED csvars /\ mech2 = mech
 (* 3-byte pattern WITHOUT comparing it; SuffixArray::new builds wrong arrays for many texts        *)
 (* (C12-KF1 / C12-KF2), the range then holds non-occurrences and the emitted back-reference copies *)
 (* other bytes.  Trigger: model = payload, right length, other bytes.                              *)
+(* Recorded as FIXED in known_findings.json: the SA-IS repair (/repo 1c07b24) removed the trigger; *)
+(* a fixed entry suppresses nothing - if this deviation explains a run again, it is a violation.   *)
 G4(e, subj, mech) == /\ subj.fam = "odict"
                      /\ e.op = "decode" /\ Matching(e.c, e.b, e.n) /\ Wrong(e)
                      /\ ~OtherModel(e)
